@@ -34,7 +34,7 @@ The important thing is: don't take the results of `resolve_*_type` as the actual
 """
 
 # Std-Lib Imports
-from typing import Union, Callable
+from typing import Union, Callable, List
 
 # Local imports
 from ...portref import PortRef
@@ -100,11 +100,18 @@ def resolve_portref_type(
     return failer(f"Invalid PortRef {pref}")
 
 
+def connected_ports(conn: Connectable) -> List[PortRef]:
+    """The ports connected to `conn`, in a reproducible order.
+    Its set of them is ordered by object address and string hash, which differ from process to process;
+    visiting it in that order would make connection order - and hence exported content - do so as well."""
+    return sorted(conn._connected_ports, key=lambda p: (p.inst.name or "", p.portname))
+
+
 def update_ref_deps(ref: Union[PortRef, BundleRef], resolved: Connectable):
     """Update all downstream dependencies on a `Ref` after it has been resolved to `resolved`."""
 
     # Reconnect all connected ports
-    for connected_port in list(ref._connected_ports):
+    for connected_port in connected_ports(ref):
         connected_port.inst.replace(connected_port.portname, resolved)
 
     # Update all dependent slices and concats
